@@ -25,6 +25,24 @@ for p in sorted(glob.glob(os.path.join(V, "seeded", "*", "meta.json"))):
 rows.append("")
 rows.append(f"{det} of {n} seeded changes are detected by the quick tier of the property's check as committed "
             f"({sum(1 for p in glob.glob(os.path.join(V,'seeded','*','meta.json')) if 'MISSED' in json.load(open(p)).get('history',''))} of them only after the check was strengthened, as noted in the history column).")
+# per-wave summary: how many of the fresh changes of each round the checks of that time missed
+waves = {}
+for p in sorted(glob.glob(os.path.join(V, "seeded", "*", "meta.json"))):
+    m = json.load(open(p))
+    w = os.path.basename(os.path.dirname(p)).split("-")[1]
+    k = waves.setdefault(w, [0, 0])
+    k[0] += 1
+    k[1] += "initially MISSED" in m.get("history", "")
+rows.append("")
+rows.append("| round | " + " | ".join(sorted(waves)) + " |")
+rows.append("|---|" + "---|" * len(waves))
+rows.append("| changes kept | " + " | ".join(str(waves[w][0]) for w in sorted(waves)) + " |")
+rows.append("| missed by the checks as they were then | " + " | ".join(str(waves[w][1]) for w in sorted(waves)) + " |")
+rows.append("")
+rows.append("Rounds a-k each asked for a kind of change the earlier rounds had not tried (the instructions of the last round are in "
+            "tools/SEED_INSTRUCTIONS.md), which is why the miss count does not fall to zero: each round probes a new direction, and "
+            "every miss became a generator class or relation. Round l asked for ordinary mistakes (a wrong operator, constant, index, "
+            "order of steps) at the anchored code sites instead, as a measure of the baseline.")
 tail = tail.replace("SEEDED_TABLE", "\n".join(rows))
 rv = os.path.join(V, "out", "revert_fixes.txt")
 keep = os.path.join(V, "tools", "revert_fixes_result.txt")
